@@ -269,6 +269,7 @@ func runC07(c *eng.Ctx) {
 
 	// ---- R07.7 failover hygiene
 	c.Rule("R07.7", "K3")
+	ruleFailoverStatusBelongsToItsPartition(c)
 	c.WhoMayCall("resetFailovers", []string{"server.metadataAPI.resetFailovers"}, []string{"server.(*metadataAPI).Reset", "server.(*metadataAPI).LostLeadership"}, []string{"server.(*metadataAPI).Reset", "server.(*metadataAPI).LostLeadership"})
 	c.WhoMayCall("LostLeadership", []string{"server.metadataAPI.LostLeadership"}, []string{"server.(*Server).leadershipLost"}, []string{"server.(*Server).leadershipLost"})
 	if fn := c.Fn("server.(*metadataAPI).resetFailovers"); fn != nil {
